@@ -1,4 +1,5 @@
 """Shared machinery of the ./check driver: scratch dirs, Go build, TLC runs, verdicts, evidence."""
+import hashlib
 import json
 import os
 import re
@@ -39,22 +40,35 @@ def goenv():
 
 
 def ensure_gomod():
-    """(Re)creates harness/go.mod and go.sum from the repository's current ones."""
+    """Creates a private go.mod/go.sum pair for the harness module that points at REPO (the
+    repository under test) and returns the go.mod path for `go build -modfile`. The pair lives
+    under .work, keyed by REPO, so that runs against scratch worktrees (VERIF_REPO) neither see
+    nor disturb each other; harness/go.mod itself only marks the module root."""
     tmpl = os.path.join(HARNESS, "go.mod.tmpl")
-    gomod = os.path.join(HARNESS, "go.mod")
-    gosum = os.path.join(HARNESS, "go.sum")
+    key = hashlib.sha1(REPO.encode()).hexdigest()[:10]
+    d = os.path.join(WORKROOT, "mod", key)
+    os.makedirs(d, exist_ok=True)
+    gomod = os.path.join(d, "go.mod")
+    gosum = os.path.join(d, "go.sum")
     repo_mod = os.path.join(REPO, "go.mod")
     repo_sum = os.path.join(REPO, "go.sum")
+    txt = open(tmpl).read().replace("=> /repo", "=> " + REPO)
+    m = re.search(r"^go (\S+)", open(repo_mod).read(), re.M)
+    if m:
+        txt = re.sub(r"^go \S+", "go " + m.group(1), txt, flags=re.M)
     stale = (not os.path.exists(gomod) or not os.path.exists(gosum)
              or os.path.getmtime(gomod) < os.path.getmtime(repo_mod)
-             or os.path.getmtime(gosum) < os.path.getmtime(repo_sum))
+             or os.path.getmtime(gosum) < os.path.getmtime(repo_sum)
+             or ("=> " + REPO + "\n") not in open(gomod).read())
     if stale:
-        txt = open(tmpl).read().replace("/repo", REPO)
-        m = re.search(r"^go (\S+)", open(repo_mod).read(), re.M)
-        if m:
-            txt = re.sub(r"^go \S+", "go " + m.group(1), txt, flags=re.M)
-        open(gomod, "w").write(txt)
-        shutil.copy(repo_sum, gosum)
+        tmp = gomod + ".%d" % os.getpid()
+        open(tmp, "w").write(txt)
+        os.replace(tmp, gomod)
+        shutil.copy(repo_sum, gosum + ".%d" % os.getpid())
+        os.replace(gosum + ".%d" % os.getpid(), gosum)
+    if not os.path.exists(os.path.join(HARNESS, "go.mod")):
+        shutil.copy(tmpl, os.path.join(HARNESS, "go.mod"))
+    return gomod
 
 
 _built = {}
@@ -65,11 +79,12 @@ def build_driver(race=False, tags="verif", cmd="verifdrv"):
     key = (race, tags, cmd)
     if key in _built:
         return _built[key]
-    ensure_gomod()
+    modfile = ensure_gomod()
     os.makedirs(os.path.join(WORKROOT, "bin"), exist_ok=True)
     out = os.path.join(WORKROOT, "bin", cmd + ("-race" if race else "") + "-%d" % os.getpid())
     gocmd = cmd
-    cmd = ["go", "build", "-tags", tags, "-o", out] + (["-race"] if race else []) + ["./cmd/" + gocmd]
+    cmd = (["go", "build", "-modfile", modfile, "-tags", tags, "-o", out] + (["-race"] if race else [])
+           + ["./cmd/" + gocmd])
     t0 = time.time()
     p = subprocess.run(cmd, cwd=HARNESS, env=goenv(), capture_output=True, text=True)
     if p.returncode != 0:
